@@ -280,7 +280,8 @@ class DistinctCountCheck(AbstractCheck):
         local_variables = {DistinctCountCheck._COUNT_NAME: self._distinct_count()}
         try:
             result = eval(self._expression, {}, local_variables)
-        except Exception as message:
+        except (Exception, SystemExit) as message:
+            # NOTE: Also catch SystemExit so rules calling ``exit()`` cannot terminate the application.
             raise errors.InterfaceError(
                 "cannot evaluate count expression %r: %s" % (self._expression, message), self.location_of_rule
             )
